@@ -114,15 +114,15 @@ func (c *RC) MustFn(qname string) *Func {
 
 // Rule is a registered rule.
 type Rule struct {
-	ID   string
-	Doc  string
-	Run  func(c *RC)
+	ID  string
+	Doc string
+	Run func(c *RC)
 }
 
 // Property groups the rules deciding one property.
 type Property struct {
 	ID          string
-	Explanation string   // what is decided and what is not
+	Explanation string // what is decided and what is not
 	Assumptions []string
 	Rules       []Rule
 }
